@@ -97,9 +97,17 @@ enum Op {
     RemEP { s: u32, t: u32, d: u32, k: u8 },
     SetVec { n: u32, v: u8 },
 }
+/// a second way of ending a transaction without success: commit() is called and returns an error
+#[derive(Clone, Debug, PartialEq)]
+enum Fail {
+    /// one more property whose WAL record exceeds the 1 MiB record limit: the records logged before it stay in the log
+    BigProp { n: u32 },
+    /// the k-th I/O step of commit() (0 = the BeginTx append) is made to fail through the verif_io hook
+    Io(u64),
+}
 #[derive(Clone, Debug)]
 enum Hop {
-    Txn { ops: Vec<Op>, commit: bool },
+    Txn { ops: Vec<Op>, commit: bool, fail: Option<Fail> },
     Compact,
     Checkpoint,
     CloseReopen,
@@ -110,7 +118,7 @@ fn js_op(o: &Op) -> serde_json::Value {
 }
 fn js_hist(h: &[Hop]) -> serde_json::Value {
     json!(h.iter().map(|x| match x {
-        Hop::Txn { ops, commit } => json!({"txn": ops.iter().map(js_op).collect::<Vec<_>>(), "commit": commit}),
+        Hop::Txn { ops, commit, fail } => json!({"txn": ops.iter().map(js_op).collect::<Vec<_>>(), "commit": commit, "commit_fails_by": format!("{:?}", fail)}),
         other => json!(format!("{:?}", other)),
     }).collect::<Vec<_>>())
 }
@@ -506,18 +514,40 @@ fn run_impl(hist: &[Hop], use_db: bool, filt: &mut Vec<String>) -> (Vec<HW>, Vec
     let mut dumps = Vec::new();
     for h in hist {
         match h {
-            Hop::Txn { ops, commit } => {
+            Hop::Txn { ops, commit, fail } => {
                 let mut ws = Vec::new();
+                let mut committed = false;
                 {
                     let mut tx = im.begin();
                     for o in ops {
                         exec_op(&mut tx, o, &mut ws);
                     }
-                    if *commit {
-                        tx.commit().expect("commit");
+                    match fail {
+                        None => {
+                            if *commit {
+                                tx.commit().expect("commit");
+                                committed = true;
+                            }
+                        }
+                        Some(Fail::BigProp { n }) => {
+                            tx.set_np(*n, "k0", PV::String("x".repeat(1_100_000)));
+                            match tx.commit() {
+                                Ok(()) => {
+                                    committed = true;
+                                    filt.push("commit() of a transaction with a 1.1 MiB property record succeeded".into());
+                                }
+                                Err(_) => {}
+                            }
+                        }
+                        Some(Fail::Io(k)) => {
+                            nervusdb_storage::verif_io::start(Some(*k));
+                            let r = tx.commit();
+                            let _ = nervusdb_storage::verif_io::stop();
+                            committed = r.is_ok();
+                        }
                     }
                 }
-                hw.push(HW::Txn(ws, *commit));
+                hw.push(HW::Txn(ws, committed));
             }
             Hop::Compact => {
                 im.compact();
@@ -528,12 +558,18 @@ fn run_impl(hist: &[Hop], use_db: bool, filt: &mut Vec<String>) -> (Vec<HW>, Vec
                 hw.push(HW::Checkpoint)
             }
             Hop::CloseReopen => {
-                im.close_reopen();
-                hw.push(HW::CloseReopen)
+                hw.push(HW::CloseReopen);
+                if let Err(e) = catch(std::panic::AssertUnwindSafe(|| im.close_reopen())) {
+                    dumps.push(Dump { panic: Some(format!("close + reopen failed: {}", e)), ..Default::default() });
+                    break;
+                }
             }
             Hop::DropReopen => {
-                im.drop_reopen();
-                hw.push(HW::DropReopen)
+                hw.push(HW::DropReopen);
+                if let Err(e) = catch(std::panic::AssertUnwindSafe(|| im.drop_reopen())) {
+                    dumps.push(Dump { panic: Some(format!("reopen failed: {}", e)), ..Default::default() });
+                    break;
+                }
             }
         }
         dumps.push(im.dump(filt));
@@ -917,10 +953,34 @@ fn gen_history(r: &mut Rng, fl: &Flavor) -> Vec<Hop> {
                 ops.push(Op::CreateNode { ext: *x, labels: vec![0] });
             }
         }
+        // C07: some of the unsuccessful transactions end by a FAILING commit() instead of a drop
+        let mut fail = None;
+        if !commit && fl.vectors {
+            let live = saved.live_nodes();
+            match r.below(10) {
+                0..=2 if !live.is_empty() => fail = Some(Fail::BigProp { n: *r.pick(&live) }),
+                3 => fail = Some(Fail::Io(r.below(2))),
+                _ => {}
+            }
+        }
         if !commit {
             g = saved;
         }
-        h.push(Hop::Txn { ops, commit });
+        let failed = fail.is_some();
+        h.push(Hop::Txn { ops, commit, fail });
+        if failed && r.chance(2, 3) {
+            // a later committed transaction and a reopen: recovery is the only reader of the leftover records
+            let mut ops2 = Vec::new();
+            for _ in 0..1 + r.below(3) {
+                if let Some(o) = g.gen_op(r, fl) {
+                    if !matches!(o, Op::SetVec { .. }) {
+                        ops2.push(o);
+                    }
+                }
+            }
+            h.push(Hop::Txn { ops: ops2, commit: true, fail: None });
+            h.push(if r.chance(1, 2) { Hop::DropReopen } else { Hop::CloseReopen });
+        }
         if r.below(100) < fl.maint_pct {
             let m = match (fl.compact, fl.reopen) {
                 (true, true) => match r.below(6) { 0 | 1 => Hop::Compact, 2 => Hop::Checkpoint, 3 | 4 => Hop::CloseReopen, _ => Hop::DropReopen },
@@ -1243,8 +1303,9 @@ fn write_case(cw: &mut CaseWriter, hw: &[HW], dumps: &[Dump], refs: &[Dump]) {
 
 fn corpus(prop: &str) -> Vec<Vec<Hop>> {
     use Op::*;
-    let t = |ops: Vec<Op>| Hop::Txn { ops, commit: true };
-    let ab = |ops: Vec<Op>| Hop::Txn { ops, commit: false };
+    let t = |ops: Vec<Op>| Hop::Txn { ops, commit: true, fail: None };
+    let ab = |ops: Vec<Op>| Hop::Txn { ops, commit: false, fail: None };
+    let fl = |ops: Vec<Op>, n: u32| Hop::Txn { ops, commit: false, fail: Some(Fail::BigProp { n }) };
     let two = || t(vec![CreateNode { ext: 1, labels: vec![0, 1] }, CreateNode { ext: 2, labels: vec![] }, CreateNode { ext: 3, labels: vec![2] }]);
     let e = |s, d| CreateEdge { s, t: 10, d };
     let mut v = vec![
@@ -1269,6 +1330,10 @@ fn corpus(prop: &str) -> Vec<Vec<Hop>> {
             v.push(vec![two(), t(vec![AddLabel { n: 1, l: 2 }]), Hop::CloseReopen]);
         }
         "C07" => {
+            v.push(vec![two(), t(vec![e(0, 1)]),
+                        fl(vec![TombEdge { s: 0, t: 10, d: 1 }, e(0, 2), TombNode { n: 1 }, SetNP { n: 0, k: 1, v: 2 }], 0),
+                        t(vec![SetNP { n: 2, k: 0, v: 1 }]), Hop::DropReopen]);
+            v.push(vec![two(), fl(vec![CreateNode { ext: 9, labels: vec![1] }, e(0, 1)], 0), t(vec![e(1, 2)]), Hop::CloseReopen, t(vec![SetNP { n: 0, k: 0, v: 3 }]), Hop::DropReopen]);
             v.push(vec![two(), ab(vec![SetVec { n: 0, v: 0 }, CreateNode { ext: 9, labels: vec![1] }, e(0, 1), SetNP { n: 0, k: 0, v: 1 }]), t(vec![SetNP { n: 1, k: 0, v: 1 }]), Hop::DropReopen]);
         }
         "C14" => {
@@ -1321,6 +1386,11 @@ fn main() {
         corr_dumps += dumps.len();
         // statistics
         *hist.entry(if use_db { "via:Db".into() } else { "via:GraphEngine".into() }).or_insert(0) += 1;
+        for x in &h {
+            if let Hop::Txn { fail: Some(f), .. } = x {
+                *hist.entry(match f { Fail::BigProp { .. } => "txn:commit-fails:oversized-record".to_string(), Fail::Io(_) => "txn:commit-fails:io-fault".to_string() }).or_insert(0) += 1;
+            }
+        }
         for x in &hw {
             match x {
                 HW::Txn(ws, c) => {
@@ -1413,11 +1483,23 @@ fn main() {
                 let mut f2 = Vec::new();
                 let (_, d2) = run_impl(&h2, use_db, &mut f2);
                 let keep: Vec<usize> = h.iter().enumerate().filter(|(_, x)| !matches!(x, Hop::Txn { commit: false, .. })).map(|(i, _)| i).collect();
+                let mut vector_reported = false;
                 for (j, i1) in keep.iter().enumerate() {
                     // an abandoned transaction directly before step i1 is covered by comparing at i1
-                    let k = diff_kinds(&dumps[*i1], &d2[j]);
+                    if *i1 >= dumps.len() || j >= d2.len() {
+                        break;
+                    }
+                    let mut k = diff_kinds(&dumps[*i1], &d2[j]);
+                    let c = classes(&hw[..=*i1]);
+                    if k.contains(&Kind::Vector) && c.vector {
+                        // known: keep looking for other differences in the rest of the history
+                        if !vector_reported {
+                            vector_reported = true;
+                            fail(&mut rep, Some("K-C07-vector"), format!("step {}: vector search differs from the run with the abandoned transactions erased: with {:?} erased {:?}", i1, dumps[*i1].vec, d2[j].vec));
+                        }
+                        k.remove(&Kind::Vector);
+                    }
                     if !k.is_empty() {
-                        let c = classes(&hw[..=*i1]);
                         fail(&mut rep, classify(&c, &k), format!("step {}: reads/vector search differ in {:?} from the run with the abandoned transactions erased: with {} erased {}", i1, k, js_dump(&dumps[*i1]), js_dump(&d2[j])));
                         break;
                     }
@@ -1660,14 +1742,14 @@ mod c30 {
                 for (k, v) in &x.2 {
                     ops.push(Op::SetNP { n: iid(x.0), k: *k, v: *v });
                 }
-                h.push(Hop::Txn { ops, commit: true });
+                h.push(Hop::Txn { ops, commit: true, fail: None });
             }
             for x in &es {
                 let mut ops = vec![Op::CreateEdge { s: iid(x.0), t: x.1, d: iid(x.2) }];
                 for (k, v) in &x.3 {
                     ops.push(Op::SetEP { s: iid(x.0), t: x.1, d: iid(x.2), k: *k, v: *v });
                 }
-                h.push(Hop::Txn { ops, commit: true });
+                h.push(Hop::Txn { ops, commit: true, fail: None });
             }
             let (hw, dumps) = run_impl(&h, true, &mut filt);
             let txn_dump = dumps.last().cloned().unwrap_or_default();
